@@ -47,6 +47,10 @@ func (propC04) Gen(r *Rng, run uint64, tier string) *Plan {
 		if r.Bool(0.4) {
 			// more sources than fit an 8-bit index
 			spec.NMin, spec.NMax = 257, 300
+			if r.Bool(0.3) {
+				// beyond any plausible worker-pool size
+				spec.NMin, spec.NMax = 513, 560
+			}
 		}
 	case x < 12:
 		// long logs, deep heap refills
@@ -82,6 +86,15 @@ func (propC04) Gen(r *Rng, run uint64, tier string) *Plan {
 	if r.Bool(0.25) {
 		p.Params.Start = BaseNs + int64(r.Intn(8))*sec + int64(r.Intn(1000))*1_000_000
 		p.Params.End = BaseNs + int64(10+r.Intn(12))*sec + int64(r.Intn(1000))*1_000_000
+	}
+	if len(p.World.Containers) >= 2 && r.Bool(0.04) {
+		// one log starts exactly at the Unix epoch: timestamp zero is a value, not "unset"
+		ci := r.Intn(len(p.World.Containers))
+		if log := p.World.Containers[ci].Log; len(log) > 0 {
+			log[0].TS = 0
+			p.Params.Start = 0
+			p.Tags["epoch_record"] = "1"
+		}
 	}
 	n := len(p.World.Containers)
 	k := 4
@@ -313,6 +326,8 @@ func (propC04) Check(t *testing.T, p *Plan, st *Stats) *Violation {
 			st.ProbeIf(empty && n >= 2, "empty_source_in_merge")
 			st.ProbeIf(!allSorted, "unsorted_source")
 			st.ProbeIf(p.Tags["pre_query"] != "", "querier_reused_after_narrower_selection")
+			st.ProbeIf(p.Tags["epoch_record"] == "1", "record_at_unix_epoch")
+			st.ProbeIf(n > 512, "more_than_512_containers")
 			st.ProbeIf(p.Tags["exhaustive_orders"] != "", "all_orders_walked")
 		}
 		if st != nil && len(o.Opens) >= 2 {
